@@ -14,6 +14,7 @@ type c07prog struct {
 	s      *string
 	n      *int
 	e      *string
+	ny     *bool
 	alpha  *bool
 	sierra *string
 }
@@ -26,13 +27,14 @@ func c07define(mode int) *c07prog {
 	p.s = p.opt.String("s", "ds")
 	p.n = p.opt.Int("n", 7)
 	p.e = p.opt.String("é", "de")
+	p.ny = p.opt.Bool("ñ", false) // shares its first byte with é
 	p.alpha = p.opt.Bool("alpha", false)
 	p.sierra = p.opt.String("sierra", "dsierra")
 	p.opt.NewCommand("cmd", "")
 	return p
 }
 
-var c07names = []string{"a", "c", "s", "n", "é", "alpha", "sierra"}
+var c07names = []string{"a", "c", "s", "n", "é", "ñ", "alpha", "sierra"}
 
 // sameOutcome asserts that two runs ended in the same observable state.
 func sameOutcome(x, y *c07prog, remX, remY []string, errX, errY error) {
@@ -43,6 +45,7 @@ func sameOutcome(x, y *c07prog, remX, remY []string, errX, errY error) {
 	vAssert("same/s", *x.s == *y.s)
 	vAssert("same/n", *x.n == *y.n)
 	vAssert("same/e", *x.e == *y.e)
+	vAssert("same/ny", *x.ny == *y.ny)
 	vAssert("same/alpha", *x.alpha == *y.alpha)
 	vAssert("same/sierra", *x.sierra == *y.sierra)
 	for _, nm := range c07names {
@@ -81,14 +84,13 @@ func VerifC07_Normal() {
 }
 
 var c07flagLetters = []string{"a", "c"}
-var c07letters = []string{"a", "c", "s", "n"}
 
 // Bundling mode: -xyz[=v] with x,y flags and z any declared letter is
 // equivalent to -x -y -z[=v].
 func VerifC07_Bundling() {
 	lx := c07flagLetters[vInt("x", 0, 1)]
 	ly := c07flagLetters[vInt("y", 0, 1)]
-	lz := c07letters[vInt("z", 0, 3)]
+	lz := c07sdLetters[vInt("z", 0, 5)] // the last letter may be a multibyte one
 	width := vInt("width", 2, 3)
 	tail := ""
 	if vBool("attached") {
@@ -109,10 +111,20 @@ func VerifC07_Bundling() {
 	vObserve("errX", errX)
 	vObserve("remX", remX)
 	sameOutcome(x, y, remX, remY, errX, errY)
+	// the rewritten form itself: declared one-letter options are recognised
+	if lz == "a" || lz == "c" || lz == "ñ" {
+		if tail == "" {
+			vAssert("letters/flags-no-error", errY == nil)
+			vAssert("letters/flag-a", *y.a == (lx == "a" || (width == 3 && ly == "a") || lz == "a"))
+		}
+	} else if (lz == "s" || lz == "é") && ((tail != "" && tail != "=") || len(rest) > 0) {
+		vAssert("letters/valued-no-error", errY == nil)
+		vAssert("letters/valued-called", y.opt.Called(lz))
+	}
 	vReach("compared")
 }
 
-var c07sdLetters = []string{"a", "c", "s", "n", "é"}
+var c07sdLetters = []string{"a", "c", "s", "n", "é", "ñ"}
 
 // SingleDash mode: -xREST is equivalent to --x=REST and -x to --x.
 func VerifC07_SingleDash() {
